@@ -30,7 +30,11 @@ class TokenIn:
     """an arbitrary client-supplied token string: symbolic length, symbolic decodability / parse outcome"""
     def __init__(self, name):
         self.len = BV64(name + '_len')
-        self.decodes, self.parses = z3.Bools(f'{name}_decodes {name}_parses')
+        self.decodes = z3.Bool(f'{name}_decodes')
+        # the decoded bytes: do they start with a well-formed token document, and does anything follow it?
+        self.prefix_parses, self.trailing = z3.Bools(f'{name}_starts_with_a_token_document {name}_has_trailing_data')
+        self.parses = z3.And(self.prefix_parses, z3.Not(self.trailing))
+        self.outer_ws = None       # set when the code trims the token: (has surrounding whitespace, the trimmed TokenIn)
         self.selector = Opaque('selector-from-' + name)
         self.name = name
         self.declen = BV64(name + '_decoded_len')      # 3 bytes per 4 characters, minus padding
@@ -106,6 +110,46 @@ def m_from_slice(ex, args, callee):
     raise Unsupported(f'from_slice of {b!r}')
 
 
+def m_json_de_from_slice(ex, args, callee):
+    return Opaque('json-de', dv(args[0]))
+
+
+def m_path_to_error_deserialize(ex, args, callee):
+    """a hand-driven serde_json::Deserializer reads ONE value and stops: what follows it is only looked at by Deserializer::end()"""
+    de = dv(args[0])
+    b = de.payload if isinstance(de, Opaque) and de.tag == 'json-de' else None
+    if isinstance(b, JsonBytes): return ex.ok(b.value)
+    if isinstance(b, Opaque) and b.tag == 'decoded':
+        t = b.payload
+        if ex.truth(t.prefix_parses):
+            return ex.ok(ex.mk_struct('SerializedToken', v=ex.mk_enum('PaginationVersion', 'V1'), page_start=t.selector))
+        return ex.err(Opaque('serde_path_to_error::Error'))
+    raise Unsupported(f'serde_path_to_error::deserialize of {de!r}')
+
+
+def m_json_de_end(ex, args, callee):
+    de = dv(args[0])
+    b = de.payload if isinstance(de, Opaque) and de.tag == 'json-de' else None
+    if isinstance(b, JsonBytes): return ex.ok(Tup([]))
+    if isinstance(b, Opaque) and b.tag == 'decoded':
+        return ex.err(Opaque('serde_json::Error')) if ex.truth(b.payload.trailing) else ex.ok(Tup([]))
+    raise Unsupported(f'Deserializer::end of {de!r}')
+
+
+def m_token_trim(ex, args, callee):
+    """trim of a client token: unchanged without surrounding whitespace; with it, the text as sent is not base64 (whitespace is outside
+    every alphabet) while what remains may well be a good token"""
+    t = dv(args[0])
+    if not isinstance(t, TokenIn):
+        from mirsym.models import m_str_trim_opaque
+        return m_str_trim_opaque(ex, args, callee.split('::')[-1])
+    if t.outer_ws is None: t.outer_ws = (z3.Bool(t.name + '_has_outer_whitespace'), TokenIn(t.name + '_trimmed'))
+    ws, inner = t.outer_ws
+    ex.assume(z3.Implies(ws, z3.Not(t.decodes)))
+    for c in inner.wf(): ex.assume(c)
+    return inner if ex.truth(ws) else t
+
+
 def m_from_value(ex, args, callee):
     """serde_json::from_value(to_value-like tree of x) = Ok(x) unless x holds a number serde_json::Value cannot represent exactly:
     without the arbitrary_precision feature (not enabled in this workspace) that is a 128-bit integer outside the 64-bit range"""
@@ -130,6 +174,8 @@ MODELS = [
     (r'<GeneralPurpose as Engine>::decode::', m_decode),
     (r'^(serde_json::)?from_slice::', m_from_slice),
     (r'^(serde_json::)?from_value::', m_from_value),
+    (r'Deserializer::<.*>::from_slice$', m_json_de_from_slice), (r'^serde_path_to_error::deserialize::<', m_path_to_error_deserialize),
+    (r'Deserializer::<.*>::end$', m_json_de_end), (r'<impl str>::trim$|<impl str>::trim_end$|<impl str>::trim_start$', m_token_trim),
     (r'^String::len$|<impl str>::len$|Vec::<u8>::len$', m_len),
     (r'^String::is_empty$|<impl str>::is_empty$|Vec::<u8>::is_empty$', lambda ex, a, c: m_len(ex, a, c) == 0),
     (r'<impl str>::as_bytes$|String::as_bytes$|<Vec<u8> as Deref>::deref$|String as Deref>::deref$', lambda ex, a, c: dv(a[0])),
@@ -423,6 +469,14 @@ def report_token_in(chk, m, t, what):
     if L > 4096:
         chk.mismatches.append(f'model not replayable (token length {L}): {what}'); return
     case = {'op': 'token_in', 'len': L, 'decodes': dec, 'parses': par}
+    ev = lambda x: bool(m.eval(x, model_completion=True))
+    import base64
+    good = b'{"v":"v1","page_start":{"s":"sel-value"}}'
+    if dec and ev(t.prefix_parses) and ev(t.trailing) and L <= 512:
+        case['token_text'] = base64.urlsafe_b64encode(good + b' {"v":"v1","page_start":{"s":"other"}}').decode()
+    elif t.outer_ws is not None and ev(t.outer_ws[0]):
+        inner = t.outer_ws[1]
+        if ev(inner.decodes) and ev(inner.parses): case['token_text'] = ' ' + base64.urlsafe_b64encode(good).decode() + '\n'
     nat = replay([case])[0]
     if 'unbuildable' in nat:
         chk.mismatches.append(f'model not replayable ({nat["unbuildable"]}): {what}'); return
@@ -441,7 +495,11 @@ def report_whichpage(chk, m, shape, tk, what):
         wf = L <= 512 and ev(tk.decodes) and ev(tk.parses)
         if not wf:
             import base64
-            if L == 0: text = ''
+            if tk.outer_ws is not None and ev(tk.outer_ws[0]):
+                inner = tk.outer_ws[1]
+                ok_inner = ev(inner.decodes) and ev(inner.parses) and cv(m, inner.len) <= 512
+                text = ' ' + (base64.urlsafe_b64encode(b'{"v":"v1","page_start":{"s":"sel-value"}}').decode() if ok_inner else '!!!!') + '\n'
+            elif L == 0: text = ''
             elif not ev(tk.decodes): text = ('!' * min(max(L, 1), 600))
             elif L > 512: text = base64.urlsafe_b64encode(b'{"v":"v1","page_start":{"s":"' + b'a' * 400 + b'"}}').decode()
             else: text = base64.urlsafe_b64encode(b'{' * max(1, min(L, 512) * 3 // 4)).decode()
